@@ -1,5 +1,6 @@
 //! C10 - operator application on expressions is a homomorphism.
 use crate::common::*;
+use crate::enumr::par_ranges;
 use crate::hist::*;
 use crate::numty::*;
 use crate::report::*;
@@ -463,6 +464,94 @@ fn read_pool(texts: &[&'static str], t: &Table, lk: LitKind) -> Vec<(&'static st
         .collect()
 }
 
+/// long accumulating histories (listed, not enumerated): two binary operators in alternation,
+/// the other operand on the right / on the left / alternating, a unary operator at every fourth
+/// step; every prefix is replayed and judged
+fn long_histories(m: &SymModel, rep: &mut Report, len: usize) {
+    let find = |name: &str| m.pool.iter().position(|(t, _)| *t == name).expect("pool entry");
+    let (ix, iy, i1) = (find("x"), find("y"), find("1"));
+    let operands = [iy, ix, i1, usize::MAX];
+    let mut hists: Vec<Vec<SAct>> = Vec::new();
+    for form in [0u8, 1, 2] {
+        for a in 0..m.bin_ops.len() {
+            for b in 0..m.bin_ops.len() {
+                for side in 0..3usize {
+                    let mut h = vec![SAct::Init(ix, form, false)];
+                    for s in 0..len {
+                        if s % 4 == 3 {
+                            h.push(SAct::Un((s / 4) % m.un_ops.len()));
+                        } else {
+                            let left = match side {
+                                0 => false,
+                                1 => true,
+                                _ => s % 2 == 1,
+                            };
+                            h.push(SAct::Bin(if s % 2 == 0 { a } else { b }, operands[(s + a) % if s < 6 { 3 } else { 4 }], left));
+                        }
+                    }
+                    hists.push(h);
+                }
+            }
+        }
+    }
+    let judge = |h: &Vec<SAct>| -> Option<(usize, Vec<(String, String)>)> {
+        for l in 2..=h.len() {
+            let out = match guard(|| m.run(&h[..l])) {
+                Ok(o) => o,
+                Err(p) => Outcome { key: String::new(), bad: vec![(format!("panic:{}", panic_site(&p)), format!("history {} panicked: {p}", m.describe(&h[..l])))], terminal: true, steps: 0 },
+            };
+            if !out.bad.is_empty() {
+                return Some((l, out.bad));
+            }
+            if out.terminal {
+                break;
+            }
+        }
+        None
+    };
+    if let Some(target) = REPLAY_TARGET.get() {
+        for h in &hists {
+            for l in 2..=h.len() {
+                if &m.describe(&h[..l]) == target {
+                    println!("found among the long accumulating histories: {:?}", &h[..l]);
+                    let code = match judge(&h[..l].to_vec()) {
+                        Some((_, bad)) => {
+                            for (sig, what) in bad {
+                                println!("  BAD {sig}: {what}");
+                            }
+                            1
+                        }
+                        None => {
+                            println!("  => every prefix of this history agrees with the reference");
+                            0
+                        }
+                    };
+                    std::process::exit(code);
+                }
+            }
+        }
+        return;
+    }
+    let accs = par_ranges(hists.len() as u64, 2, install_panic_hook, |st, en, acc| {
+        for i in st..en {
+            let h = &hists[i as usize];
+            acc.states += h.len() as u64 - 1;
+            acc.nontrivial += h.len() as u64 - 1;
+            acc.evaluations += 1;
+            acc.transitions += (h.len() * (h.len() + 1) / 2) as u64;
+            if let Some((l, bad)) = judge(h) {
+                for (sig, what) in bad {
+                    acc.violate(Violation { signature: format!("long-history:{sig}"), what, case: json!({"engine": "c10", "history": m.describe(&h[..l])}) });
+                }
+            }
+        }
+    });
+    for a in accs {
+        rep.absorb(a);
+    }
+    rep.bounds.push(format!("long accumulating histories: {} histories of {len} applications (all ordered pairs of {} binary operators in alternation x operand on the right / left / alternating x flat, deep, uncompiled flat), every prefix judged: complete", hists.len(), m.bin_ops.len()));
+}
+
 /// every named helper method and constant constructor of `DeepEx<f64>` (default operators)
 /// against the operator of that name applied by `operate_unary` and against the Rust primitive
 /// on the operand's value; the overloaded operators and `pow` on every ordered pair of a pool
@@ -608,6 +697,7 @@ pub fn run(tier: Tier) -> i32 {
     let pool_s = read_pool(&["x", "y", "x+y", "1*x", "z/x", "1", "f(y)-2", "2|1", "x*-2", "f(1)+y"], &ut, LitKind::Sym);
     let twin = Table::new(ut.ops.iter().rev().cloned().collect());
     let m = SymModel { table: ut.clone(), twin, pool: Arc::new(pool_s), un_ops: vec![5, 12], bin_ops: vec![0, 2, 4, 5, 9, 10], max_len: 3, forms: vec![(0, false), (1, false), (2, false), (0, true), (1, true)] };
+    long_histories(&m, &mut rep, if tier.thorough() { 24 } else { 12 });
     explore(m.clone(), &mut rep, "c10", "symbolic/by-name, 5 forms (flat, deep, uncompiled flat, second factory flat / deep)");
     if tier.thorough() {
         // one more step for the two plain forms
